@@ -74,6 +74,8 @@ def _template(ctx, cfg):
     sv = [ctx.select(STARTS, s) for s in sel]
     free_tag = ctx.sint('free.tag', A)
     free_val = ctx.uint('free.val', A)
+    # the value of the terminating entry is ignored by the gABI ("d_un: ignored"): any value, the tag alone ends the array
+    null_val = ctx.uint('null.val', A)
     ctx.assume(ctx.land(free_tag != 12, *[free_tag != t for t in DT.values()]))      # 12 = DT_INIT, queried as the absent table
     tags = [(DT['NEEDED'], sv[0]), (DT['NEEDED'], sv[1]), (DT['SONAME'], sv[2]), (DT['RPATH' if cfg.get('rpath', True) else 'RUNPATH'], sv[3]),
             (DT['STRTAB'], addr(stroff)), (DT['STRSZ'], len(DYNSTR)), (DT['SYMTAB'], addr(symoff)), (DT['SYMENT'], symsz)]
@@ -98,7 +100,7 @@ def _template(ctx, cfg):
         ooff = img.blob(L.encode(oname, cls, little, other[0]), align=8)
         tags += [(DT[oname], addr(ooff)), (DT[oname + 'SZ'], osz), (DT[oname + 'ENT'], osz)]
     tags += [(DT[rname], addr(reloff)), (DT[rname + 'SZ'], 2 * rsz), (DT[rname + 'ENT'], rsz),
-             (DT['JMPREL'], addr(jmpoff)), (DT['PLTRELSZ'], rsz), (DT['PLTREL'], DT[rname]), (free_tag, free_val), (DT['NULL'], 0)]
+             (DT['JMPREL'], addr(jmpoff)), (DT['PLTRELSZ'], rsz), (DT['PLTREL'], DT[rname]), (free_tag, free_val), (DT['NULL'], null_val)]
     after_null = [(DT['NEEDED'], 1), (DT['NULL'], 0)]
     dynsz = L.sizeof('DYN', cls)
     dynoff = img.blob(sum([L.encode('DYN', cls, little, dict(d_tag=t, d_val=v)) for t, v in tags + after_null], []), align=8)
